@@ -1,5 +1,6 @@
 """C01 - Trajectory is the solution of the point-mass equations of motion."""
 import math
+import os
 from hypothesis import strategies as st
 
 from .. import lib, gen, build, ref_ode
@@ -88,7 +89,8 @@ def check(case, levels=None):
                                     spec.get("cant", 0.0))
     targets = [k * R / 3.0 for k in (1, 2, 3)]
     winds = spec.get("winds") or []
-    segs = ref_ode.wind_segments(winds)
+    ukey = lambda u: D.Foot(u).raw_value   # the order of segments is decided on the quantity's base-unit magnitude
+    segs = ref_ode.wind_segments(winds, key=ukey)
     dx = 0.5
     if vac:
         ref = {m: ref_ode.vacuum_closed_form(pos, vel, g, m) for m in targets}
@@ -115,12 +117,13 @@ def check(case, levels=None):
         r.label("out-of-domain:steep")
         return r
     # ---- jitter term: one run per wind boundary inside the range, that boundary alone applied one step longer
-    J = {m: {q: 0.0 for q in Q} for m in targets}
+    J = {m: {q: 0.0 for q in Q} for m in targets}      # isolated boundaries: jitter proportional to the step
+    JC = {m: {q: 0.0 for q in Q} for m in targets}     # boundaries closer than 4 steps to another one or to a row: not scaled
     if not vac and winds:
         wmax = max(w[0] for w in winds)
         vmin = min(impl[0][k]["speed"] for k in range(3))
         s0 = (H / 2.0) * (1.0 + wmax / max(vmin - wmax, 1.0)) * 1.05
-        order = sorted(range(len(winds)), key=lambda i: winds[i][2])
+        order = sorted(range(len(winds)), key=lambda i: ukey(winds[i][2]))
         untils = [winds[i][2] for i in order]
         for pos_i, u in enumerate(untils):
             if u >= R + s0:
@@ -133,13 +136,19 @@ def check(case, levels=None):
             for pj in range(pos_i + 1, len(untils)):
                 if untils[pj] < u + shifts[pos_i]:
                     shifts[pj] = u + shifts[pos_i] - untils[pj]
-            segs_s = ref_ode.wind_segments(winds, shifts)
+            segs_s = ref_ode.wind_segments(winds, shifts, key=ukey)
             rs = ref_ode.integrate(pos, vel, g, alt0, rho_c, K, segs_s, targets, dx / 2)
             if rs.get("failed"):
                 continue
+            # The effect of a late switch is linear in the delay only while the delay is short against the distance to
+            # the next boundary and to the row: a segment shorter than a step is applied for a whole step or not at all at
+            # every refinement level until the step resolves it (found by targeted search: 0.22-ft segment of 52 fps wind
+            # ending on the row).  Such boundaries contribute their level-0 jitter to every level.
+            near = any(abs(u - untils[pj]) < 4 * s0 for pj in range(len(untils)) if pj != pos_i) or \
+                any(0 <= m_ - u < 4 * s0 for m_ in targets)
             for m in targets:
                 for qi, q in enumerate(Q):
-                    J[m][q] += abs(rs[m][qi] - ref[m][qi])
+                    (JC if near else J)[m][q] += abs(rs[m][qi] - ref[m][qi])
     # ---- the bound
     worst = 0.0
     for ti, m in enumerate(targets):
@@ -147,12 +156,12 @@ def check(case, levels=None):
             Dq = max((2 ** k) * abs(impl[k][ti][q] - impl[k + 1][ti][q]) for k in range(L - 1))
             for j in range(L):
                 err = abs(impl[j][ti][q] - ref[m][qi])
-                tol = (KD * Dq + KJ * J[m][q]) / 2 ** j + 4 * e_ref[q] + FLOOR[q] * max(1.0, abs(ref[m][qi]) * 1e-3)
+                tol = (KD * Dq + KJ * J[m][q]) / 2 ** j + KJ * JC[m][q] + 4 * e_ref[q] + FLOOR[q] * max(1.0, abs(ref[m][qi]) * 1e-3)
                 worst = max(worst, err / tol)
                 if err > tol:
                     which = "vacuum-closed-form" if vac else "point-mass-model"
                     r.bad(f"C01:{which}:{q}", f"{q} at {m!r} ft with step {H / 2 ** j!r} ft: solver {impl[j][ti][q]!r}, reference {ref[m][qi]!r}; error {err:.3e} exceeds "
-                          f"{tol:.3e} = ({KD} x first-order estimate {Dq:.3e} + {KJ} x wind-switch jitter {J[m][q]:.3e}) / {2 ** j} + 4 x {e_ref[q]:.1e} + floor",
+                          f"{tol:.3e} = ({KD} x first-order estimate {Dq:.3e} + {KJ} x wind-switch jitter {J[m][q]:.3e}) / {2 ** j} + {KJ} x unresolved-segment jitter {JC[m][q]:.3e} + 4 x {e_ref[q]:.1e} + floor",
                           level=j, D=Dq, J=J[m][q])
                     r.target = worst
                     return r
